@@ -569,6 +569,15 @@ def names_and_totality(ctx):
                 ctx.spec_failure(case, "underlinePosition %r -> %r" % (extra["postscriptUnderlinePosition"], post.underlinePosition))
             if "italicAngle" in extra and abs(post.italicAngle - extra["italicAngle"]) > 1e-3:
                 ctx.spec_failure(case, "italicAngle %r -> %r" % (extra["italicAngle"], post.italicAngle))
+            # the absent sub- / superscript X offsets fall back to where the slanted stem is at that height: a superscript
+            # raised by Y sits Y * tan(-italicAngle) to the right (a right-leaning font has a NEGATIVE angle), a subscript
+            # lowered by Y as much to the left
+            ang = extra.get("italicAngle", 0)
+            t_ = math.tan(math.radians(-ang)) if ang else 0
+            for field, want_x in (("ySuperscriptXOffset", o.ySuperscriptYOffset * t_), ("ySubscriptXOffset", -o.ySubscriptYOffset * t_)):
+                if abs(getattr(o, field) - want_x) > 0.51:
+                    ctx.spec_failure(dict(case, field=field), "OS/2.%s = %d with italicAngle %r; the slanted stem is at x = %.1f at that height (Y offsets: superscript %d up, subscript %d down)" % (
+                        field, getattr(o, field), ang, want_x, o.ySuperscriptYOffset, o.ySubscriptYOffset))
             sel = set(extra.get("openTypeOS2Selection", []))
             sel |= {"regular": {6}, "bold": {5}, "italic": {0}, "bold italic": {0, 5}}[smsn]
             if o.fsSelection != sum(1 << b for b in sel):
